@@ -267,6 +267,11 @@ func (valSet *ValidatorSet) VerifyCommit(chainID string, blockID BlockID, height
 		if !val.PubKey.VerifyBytes(precommitSignBytes, precommit.Signature) {
 			return fmt.Errorf("Invalid commit -- invalid signature: %v", precommit)
 		}
+		// The sign bytes cover neither the index nor the address, but a stored commit is
+		// re-added vote by vote (reconstructLastCommit): each precommit must name its slot's validator.
+		if precommit.ValidatorIndex != idx || !bytes.Equal(precommit.ValidatorAddress, val.Address) {
+			return fmt.Errorf("Invalid commit -- wrong validator for slot %v: %v", idx, precommit)
+		}
 		if !blockID.Equals(precommit.BlockID) {
 			continue // Not an error, but doesn't count
 		}
